@@ -36,6 +36,11 @@ var alphabet = append(ls.SenderAlphabet(5),
 	ls.SMsg{Name: "TickF9", Bytes: []byte{0xF9}},
 	ls.SMsg{Name: "UndefinedF4", Bytes: []byte{0xF4}}, // undefined system common
 	ls.SMsg{Name: "Reset", Bytes: []byte{0xFF}},
+	// deliveries that are not whole messages: a message cut short, data bytes
+	// alone (running status across deliveries), a sysex that is never closed
+	ls.SMsg{Name: "NoteOnCutShort", Bytes: []byte{0x90, 0x3C}},
+	ls.SMsg{Name: "TwoDataBytes", Bytes: []byte{0x0A, 0x40}},
+	ls.SMsg{Name: "SysExLeftOpen", Bytes: []byte{0xF0, 0x01}},
 )
 
 var tempi = []float64{120, 20, 61.5, 400}
@@ -104,6 +109,32 @@ func record(seq []ls.SMsg, sl []int32, bpm float64, res smf.MetricTicks, via str
 	var tr smf.Track
 	file := smf.New()
 	file.TimeFormat = res
+	// "smf-after-write" / "smf-after-read": the file already holds a track and
+	// has been written (or comes from the reader) before the take is recorded
+	pre := 0
+	var preEvents []refsmf.Event
+	if via == "smf-after-write" || via == "smf-after-read" {
+		var t0 smf.Track
+		t0.Add(0, smf.MetaTrackSequenceName("existing"))
+		t0.Add(10, smf.Message([]byte{0x95, 0x30, 0x31}))
+		t0.Close(2)
+		file.Add(t0)
+		pre = 1
+		var first bytes.Buffer
+		if _, werr := file.WriteTo(&first); werr != nil {
+			ctx.Guard(false, "cannot write the prepared file: %v", werr)
+			return
+		}
+		if via == "smf-after-read" {
+			rd, rerr := smf.ReadFrom(bytes.NewReader(first.Bytes()))
+			if rerr != nil {
+				ctx.Guard(false, "cannot read the prepared file: %v", rerr)
+				return
+			}
+			file = rd
+		}
+		preEvents = sp.FromTrack(file.Tracks[0])
+	}
 	var stop func()
 	var err error
 	c := engine.Catch(func() {
@@ -146,11 +177,11 @@ func record(seq []ls.SMsg, sl []int32, bpm float64, res smf.MetricTicks, via str
 		tr.Close(0)
 		file.Add(tr)
 	}
-	if len(file.Tracks) != 1 {
+	if len(file.Tracks) != pre+1 {
 		report("record:track-count:"+via, seq, sl, bpm, res, via, fmt.Sprintf("%d tracks after recording", len(file.Tracks)))
 		return
 	}
-	t := file.Tracks[0]
+	t := file.Tracks[pre]
 	evs := sp.FromTrack(t)
 	// 1. tempo first
 	wantTempo := []byte(smf.MetaTempo(bpm))
@@ -218,8 +249,12 @@ func record(seq []ls.SMsg, sl []int32, bpm float64, res smf.MetricTicks, via str
 		report("record:readback-fails:"+feat, seq, sl, bpm, res, via, fmt.Sprintf("library cannot read its recording: %v %s", rerr, c.Value))
 		return
 	}
-	if len(back.Tracks) != 1 || refsmf.FirstDiff(sp.FromTrack(file.Tracks[0]), sp.FromTrack(back.Tracks[0])) != "" {
-		report("record:readback-differs:"+feat, seq, sl, bpm, res, via, "events read back differ from the recorded track")
+	if len(back.Tracks) != pre+1 || refsmf.FirstDiff(sp.FromTrack(file.Tracks[pre]), sp.FromTrack(back.Tracks[pre])) != "" {
+		report("record:readback-differs:"+feat, seq, sl, bpm, res, via, fmt.Sprintf("events read back differ from the recorded track (%d tracks read, %d in the value)", len(back.Tracks), len(file.Tracks)))
+		return
+	}
+	if pre == 1 && refsmf.FirstDiff(preEvents, sp.FromTrack(back.Tracks[0])) != "" {
+		report("record:existing-track-changed:"+via, seq, sl, bpm, res, via, "the track the file held before the recording reads back differently")
 	}
 }
 
@@ -252,6 +287,10 @@ func space(first int) {
 				}
 				if depth <= 2 {
 					record(s, sl, 120, 960, "smf")
+					if sl[0] != 1 {
+						record(s, sl, 120, 960, "smf-after-write")
+						record(s, sl, 120, 960, "smf-after-read")
+					}
 				}
 				if depth > 3 {
 					break
